@@ -97,10 +97,10 @@ Proof.
       apply wp_bind. eapply wp_mono; [| |apply (safe_to_wp skip_step quietop _ (fun _ => True) SExists)]; auto.
       2:{ intros op r H. apply skip_quiet. exact H. }
       2:{ apply safe_of_asafe. apply describe_quiet. }
-      intros s d [Hs _]. subst s. apply wp_bind. apply wp_call_str. intros r Hv''.
+      intros s d [Hs _]. subst s. apply wp_bind. apply wp_catch. apply wp_call_str. intros r Hv''.
       destruct r as [| |reply| | | | |e]; try discriminate.
       * eexists. split; [reflexivity|]. destruct (parse_user_reply reply); [exact Hfile|exact I].
-      * exists SHalt. split; [destruct e; try discriminate; reflexivity|]. exact I.
+      * exists SHalt. split; [destruct e; try discriminate; reflexivity|]. destruct e; exact I.
     + exists SHalt. split; [reflexivity|]. cbn [negb]. destruct (po_mode o); try apply Hrep. exact I.
 Qed.
 
